@@ -102,6 +102,8 @@ fn main() {
                 }
             }
         }
+        Some("c05-serve") => std::process::exit(props::c05::serve()),
+        Some("c05-rows") => props::c05::print_rows(),
         Some("c18-digest") => {
             for l in props::c18::digest_lines() {
                 println!("{l}");
